@@ -13,6 +13,11 @@ Obligations (all generated from the real source on every run):
 (d) BYTES DATAFLOW from the container read to the image object, content type from the extension table;
 (e) VIEWS COINCIDE in data_types.py (symbolic lists of symbolic lists, invariants over the yielded prefix).
 
+(f) OBSERVATION ACCESSORS (round 7, contracts/c14_access.py): get_metadata / get_content_type / get_bytes of DocxImage, PptxImage, XlsxImage,
+    OpenDocumentImage, EpubImage, PdfImage, RtfImage on abstract instances -- what the caller observes is what the extractor stored (number,
+    unit, positive size or None, content type, a stream over exactly the stored payload positioned at 0); content-type helpers
+    `xlsx._get_content_type` and ODF `guess_content_type` under contracts over a symbolic part name; table keys proved == LOWER(extension).
+
 Round 5: the content-type claim includes the body of the module's content-type helper (`_ct_helper_body`); a key expression of a pure shape
 outside EXT_SHAPES is executed on EXT_CORPUS (bounded stand-in); helpers are read after normalisation (dict literal / `**kwargs` / parameter
 copies); `[*a, *b]` over sequence-valued lists is a concatenation (c14_exec); os.path string functions are total (c14_sites.TOTAL_CALLS);
@@ -894,7 +899,8 @@ def odf_length(repo, tier):
             g["function"] = f"{DT}::{qual}"
             return confirm_natively({"obligations": [g], "functions": [dict(mod.fn_info(qual), obligations=1)]}, repo)
         ex = type("LengthExecutorHere", (L.LengthExecutor,), {"PATTERNS": frozenset(names)})(mod, reg, Universe(repo))
-        c = FnContract(target=f"{DT}::{qual}", params=[("length", p_str())], ensures=[("pixels-at-96-dpi-for-every-absolute-unit", L.spec)], raises=[],
+        from pyvc.verify import p_opt      # round 7: the parameter is `str | None` as annotated (None / "" -> None), the accessors pass stored Optional lengths
+        c = FnContract(target=f"{DT}::{qual}", params=[("length", p_opt(p_str()))], ensures=[("pixels-at-96-dpi-for-every-absolute-unit", L.spec)], raises=[],
                        note="CSS absolute lengths at 96 dpi; float rounding within 1/2 + 1e-9 relative")
         ex.contract = c
         ex.oid_prefix = base
@@ -1387,6 +1393,12 @@ def _ct_helper_body(ck, helper):
     from contracts.c14_flow import reaching
     try:
         rel = ck.rel if helper in ck.mod.functions else EX + "open_office/_shared.py"
+        try:        # round 7: the helper is under a contract verified on its body (c14_access.run_helpers); when that holds its shape is irrelevant
+            from contracts import c14_access as A
+            if A.helper_verified(ck.mod.repo, rel, helper, contracts):
+                return None
+        except Exception:  # noqa
+            pass
         hk = SI.Checker("C14", rel, helper, ck.mod.repo, inline=False)
         if hk.fn is None or len(hk.fn.args.args) != 1:
             return f"content-type helper {helper} not found"
@@ -1419,6 +1431,12 @@ def _ct_helper_body(ck, helper):
                 key = v.slice
             if key is not None:
                 if not _ext_shape_of(deref(key, r), pn):
+                    try:
+                        from contracts import c14_access as A
+                        if A.key_proved(hk.mod, deref(key, r), pn, ck.mod.repo, contracts) is True:
+                            continue
+                    except Exception:  # noqa
+                        pass
                     if _ext_by_evaluation(deref(key, r), pn) is True:
                         bounded = True
                         continue
@@ -1436,13 +1454,23 @@ def _ct_helper_body(ck, helper):
         return f"{helper}: shape not recognised ({type(e).__name__})"
 
 
+def _key_proved(ck, k, at):
+    """the key expression, over a name that holds the part name, is the lower-cased extension -- by proof (c14_access.key_proved)"""
+    try:
+        from contracts import c14_access as A
+        return any(_names_the_part(ck, nm, at) and A.key_proved(ck.mod, k, nm, ck.mod.repo, contracts) is True
+                   for nm in sorted({x.id for x in ast.walk(k) if isinstance(x, ast.Name)}))
+    except Exception:  # noqa
+        return False
+
+
 def _ct_from_extension(ck, sites, of_names, label="looked-up-by-the-lower-cased-extension"):
     """content_type= is `_CONTENT_TYPE_MAP.get(ext, ...)` / `_CONTENT_TYPE_MAP[ext]` with ext = the lower-cased text after the last dot of
     a name that (by data flow) holds the part name, or `_get_content_type(<such a name>)` / `guess_content_type(<such a name>)`.
     Anything else is `unknown`: the native sweep of content types decides."""
     from contracts import c14_sites as SI
     from contracts.c14_flow import reaching
-    bad, ok, evaluated = [], 0, []
+    bad, ok, evaluated, proved_keys = [], 0, [], []
 
     def ext_of(e, at):
         s = ast.unparse(e).replace('"', "'")
@@ -1473,7 +1501,10 @@ def _ct_from_extension(ck, sites, of_names, label="looked-up-by-the-lower-cased-
             key = v.slice
         if key is not None:
             k, kat = deref(key, at)
-            if ext_of(k, kat):
+            if _key_proved(ck, k, kat):     # round 7: discharged by the engine over a symbolic part name (not a shape match, not a corpus run)
+                ok += 1
+                proved_keys.append(f"line {LN(c)}: {ast.unparse(k)[:60]}")
+            elif ext_of(k, kat):
                 ok += 1
             elif any(_names_the_part(ck, nm, kat) and _ext_by_evaluation(k, nm) is True for nm in sorted({x.id for x in ast.walk(k) if isinstance(x, ast.Name)})):
                 ok += 1
@@ -1495,6 +1526,9 @@ def _ct_from_extension(ck, sites, of_names, label="looked-up-by-the-lower-cased-
     if bad or not ok:
         return ck.unknown("content-type", label, "; ".join(bad) or "no content_type= found")
     ck.add("content-type", label, True)
+    if proved_keys:
+        ck.obls[-1]["reason"] = "key == LOWER(text after the last dot) proved over a symbolic part name: " + "; ".join(proved_keys)[:300]
+        ck.obls[-1]["backends"] = dict(ck.obls[-1].get("backends") or {}, z3=len(proved_keys))
     if evaluated:     # not proved: the key expression was executed on a corpus of part names (BOUNDED stand-in, DESIGN 2.8)
         ck.obls[-1]["bounded"] = True
         ck.obls[-1]["reason"] = f"key expression executed on {len(EXT_CORPUS)} part names, equals the lower-cased extension each time: " + "; ".join(evaluated)[:300]
@@ -2164,10 +2198,34 @@ def _view_contracts(v: ViewSpec, images_only=False):
     C14Executor.VIEW[out[-1].target] = "tables"
 
     # ---- iterate_units: concat(u.get_images()) is the same flattening; unit tables are tables of the same element ----
+    def counters(lc):
+        """`k += 1` once per iteration (a hand-written enumerate): k == k at loop entry + number of iterations"""
+        out = []
+        try:
+            fnode = getattr(lc.st.frame, "fnode", None)
+            loop = next((n for n in ast.walk(fnode) if isinstance(n, ast.For)), None) if fnode is not None else None
+            for b in (loop.body if loop is not None else ()):
+                nm = None
+                if isinstance(b, ast.AugAssign) and isinstance(b.op, ast.Add) and isinstance(b.target, ast.Name) and isinstance(b.value, ast.Constant) \
+                        and b.value.value == 1 and type(b.value.value) is int:
+                    nm = b.target.id
+                elif isinstance(b, ast.Assign) and len(b.targets) == 1 and isinstance(b.targets[0], ast.Name) \
+                        and ast.unparse(b.value) in (f"{b.targets[0].id} + 1", f"1 + {b.targets[0].id}"):
+                    nm = b.targets[0].id
+                if nm is None:
+                    continue
+                stores = [x for x in ast.walk(loop) if isinstance(x, ast.Name) and x.id == nm and isinstance(x.ctx, ast.Store)]
+                v0, v1 = lc.entry.lookup(nm), lc.st.lookup(nm)
+                if len(stores) == 1 and isinstance(v0, VInt) and isinstance(v1, VInt):
+                    out.append(v1.t == v0.t + lc.i)
+        except Exception:  # noqa
+            return []
+        return out
+
     def unit_inv(lc):
         me = _self_of(lc.entry)
         lc.st.assume(v.defn(me, lc.i))
-        return Conj([("images", Y(lc.st, "img") == v.FLATI(me, lc.i)), ("count", Y(lc.st, "cnt") == lc.i)])
+        return Conj([("images", Y(lc.st, "img") == v.FLATI(me, lc.i)), ("count", z3.And([Y(lc.st, "cnt") == lc.i] + counters(lc)))])
 
     def unit_spec(ex, st):
         e = ex.current_element(st, v.ecls)
@@ -2183,8 +2241,20 @@ def _view_contracts(v: ViewSpec, images_only=False):
                  ("one-unit-per-element", lambda c: Y(c.st, "cnt") == v.n(me_of(c)))],
         raises=[], loops={0: LoopSpec(inv=unit_inv, label="units")},
         note="concat(u.get_images() for u in iterate_units()) == list(iterate_images()); u.get_tables() ⊆ tables of the same element"))
+    def unit_num(ex, st, before):
+        """the stored number of the element when it has one (slides: `slide_number`, set by the extractor, also stamped on the slide's
+        pictures), else the 1-based position (pages, sheets)"""
+        sch = ex.schema(v.ecls) or {}
+        if sch.get("slide_number") == "int":
+            e = ex.current_element(st, v.ecls)
+            if e is None:
+                raise ops.Unsupported("no current element at the yield of a unit")
+            from contracts.c03_exec import fld
+            return fld(v.ecls, "slide_number", z3.IntSort())(e.t)
+        return before + 1
     C14Executor.VIEW[tgt] = "units"
     C14Executor.UNIT_SPEC[tgt] = unit_spec
+    C14Executor.UNIT_NUM[tgt] = unit_num
     return out
 
 
@@ -2365,7 +2435,45 @@ def seq_lemmas(repo, tier):
     return {"obligations": out, "functions": []}
 
 
-EXTRA = [_site_runner(i) for i in range(len(SITES))] + [image_sites, sniffers_agree, seq_lemmas, pdf_content_type, rel_type_selection, odf_length]
+def accessors(repo, tier):
+    """Round 7: the observation accessors (get_metadata / get_content_type / get_bytes) of the six image classes of the formats the property
+    quantifies over, each under a contract verified on its real body (contracts/c14_access.py); a refutation counts when the native grid
+    (replay/C14.py::check_accessors) reproduces it."""
+    try:
+        from contracts import c14_access as A
+        return confirm_natively(A.run(repo, tier, contracts), repo)
+    except Exception as e:  # noqa
+        g = ground_obligation("C14/data_types.py::image-accessors/ensures#executable", False, f"not executable: {type(e).__name__}: {e}"[:300], DT,
+                              kind="ensures", definite=False)
+        return {"obligations": [g], "functions": []}
+
+
+def metadata_mirror(repo, tier):
+    """Round 7: `ImageMetadata.__post_init__` -- the dict view the statement observes holds the fields of the same name (c14_access)."""
+    try:
+        from contracts import c14_access as A
+        return confirm_natively(A.run_metadata_mirror(repo, tier, contracts), repo)
+    except Exception as e:  # noqa
+        g = ground_obligation("C14/data_types.py::ImageMetadata.__post_init__/ensures#executable", False, f"not executable: {type(e).__name__}: {e}"[:300], DT,
+                              kind="ensures", definite=False)
+        return {"obligations": [g], "functions": []}
+
+
+def content_type_helpers(repo, tier):
+    """Round 7: the content-type helpers of the library (xlsx `_get_content_type`, ODF `guess_content_type`) under a contract verified on the
+    real body over a symbolic part name (contracts/c14_access.py::run_helpers); the call sites keep the syntactic `content-type#` view, which
+    the verified contract implies for the raster extensions."""
+    try:
+        from contracts import c14_access as A
+        return confirm_natively(A.run_helpers(repo, tier, contracts), repo)
+    except Exception as e:  # noqa
+        g = ground_obligation("C14/xlsx_extractor.py::_get_content_type/ensures#executable", False, f"not executable: {type(e).__name__}: {e}"[:300], XLSX,
+                              kind="ensures", definite=False)
+        return {"obligations": [g], "functions": []}
+
+
+EXTRA = [_site_runner(i) for i in range(len(SITES))] + [image_sites, sniffers_agree, seq_lemmas, pdf_content_type, rel_type_selection, odf_length, accessors,
+                                                        content_type_helpers, metadata_mirror]
 
 
 def lemmas():
@@ -2385,20 +2493,38 @@ def lemmas():
 
 
 TRUSTED = ["zipfile member reads (ZipFile.read returns the stored member)", "pypdf image decoding (get_data of a DCT stream is the embedded file)",
-           "mimetypes.guess_type (ODF content types)", "io.BytesIO(x) holds exactly x",
+           "mimetypes table (ODF content types): `guess_content_type` is verified relative to the uninterpreted answer of mimetypes.guess_type; that the "
+           "table knows the raster extensions case-insensitively is validated natively (replay/C14.py::check_ct_helper), not proved",
+           "io.BytesIO at the extractors' store sites: BytesIO(x) holds exactly x (the accessors' stream model is listed under assumed models)",
            "AST dataflow back end (contracts/c14_sites.py, c14_flow.py): numbering discipline => numbers 1..n in append order by the loop invariant "
            "`counter == number of images appended`; only calls outside TOTAL_CALLS / proved-total repo functions are raise points",
            "program slices (c14_flow.py): nearest dominating definition; a shape the slicer does not follow is UNDECIDED"]
 ASSUMED_MODELS = ["str.split('/') = SEGS, '/'.join = JOINS (uninterpreted; replay validates the executable twin against CPython)",
-                  "int.from_bytes / struct.unpack on (clamped) slices", "bytes.startswith / == on byte strings"]
+                  "int.from_bytes / struct.unpack on (clamped) slices", "bytes.startswith / == on byte strings",
+                  "round 7 (accessor / helper contracts, contracts/c14_access.py): str.strip = STRIP, str.lower = LOWER (uninterpreted functions; "
+                  "validated natively on part names and content types of every casing)",
+                  "mimetypes.guess_type(path) = (MIME(path) or None, encoding): uninterpreted answer in the contract of open_office/_shared.guess_content_type",
+                  "io.BytesIO stream model: a stream is (content, position); BytesIO(b) / BytesIO() / BytesIO(None) hold b / nothing at position 0; seek(n) sets "
+                  "the position; any other stream operation is outside the model (-> unknown); replay reads every accessor's stream twice",
+                  "data_types._odf_length_to_px AT ITS CALL SITE in OpenDocumentImage.get_metadata: None for None (implied by the verified contract), result == PX(argument) for a str (determinism only); "
+                  "the function's own 96-dpi contract is VERIFIED on its body (odf_length) and is not weakened by this view",
+                  "ImageMetadata.__setattr__ mirrors each field assignment into the dict view (dict.__setitem__ through super(); not modelled); what "
+                  "__post_init__ writes is VERIFIED (metadata_mirror); replay/C14.py::check_metadata_mirror / check_accessors compare attribute view and "
+                  "dict view natively (construction by keyword / position / defaults, later assignment)"]
 ASSUMPTIONS = ["JPEG: a stream that leaves the T.81 marker chain before a frame header (non-FF byte at a marker position, standalone marker, "
                "EOI/SOS first, truncated frame header) declares no size in the sense of the statement: result unconstrained there",
                "BMP: signed little-endian width / height at 18 / 22 as in the property's format clause (BITMAPINFOHEADER family)"]
 BOUNDED = ["each recorded finding: behaviour OUTSIDE its exclusion is checked by a native sweep of 12 generated documents (replay/C14.py::exclusion_sweep), not proved",
            "refutations: every solver model is re-validated natively (grid of 8 base dirs x 15 targets for resolvers; generated PNG/GIF/BMP/JPEG files incl. fill "
            "bytes, 1-3 leading segments and 6000 random marker sequences for the sniffers; <= 3 elements x <= 2 images for the data_types views)",
-           "content-type obligations are syntactic (lookup of the lower-cased extension in the literal table); str.lower / mimetypes are not modelled; "
-           "a key expression of another pure shape is executed by CPython on EXT_CORPUS (13 part names) and counted as bounded-ok, never as proved"]
+           "content-type obligations at the extractor sites stay dataflow claims (content_type= is the table image of a key computed from the part name), but "
+           "since round 7 the KEY is proved == LOWER(text after the last dot) over a symbolic part name where the engine's exact string models apply "
+           "(rsplit(sep, 1), rpartition, `in`, conditional expressions) and the helpers `_get_content_type` / `guess_content_type` are under contracts "
+           "verified on their bodies; `n.lower().rsplit('.', 1)[-1]` (lower first) is still accepted by shape; a key expression of another pure shape "
+           "(posixpath.splitext ...) is executed by CPython on EXT_CORPUS (13 part names) and counted as bounded-ok, never as proved",
+           "accessor / helper obligations: a solver refutation or a body outside the subset counts only when the native grid reproduces it "
+           "(replay/C14.py::check_accessors: 2 numbers x units x 4-6 sizes squared x 2 content types, payloads None / empty / 264 bytes with the stored "
+           "stream left at 0 / 5 / end; check_ct_helper: 5 extensions x 3 casings x 7 stems)"]
 
 
 def known_findings(kf, violations, repo, tier):
